@@ -763,6 +763,24 @@ func TestRegress(t *testing.T) {
 		{Name: "ascii-crlf-tabs", Ascii: "solid\r\nfacet normal 0.0 0.0 0.0\r\n\touter  loop\r\n\t\tvertex\t+1.000000E+00  2.0  0.5\r\n\t\tvertex 0.1 0.2 0.3 \r\n\t\tvertex -0 1e-30 1e30\r\n\tendloop\r\nendfacet\r\nendsolid",
 			Want: []tri{{{1, 2, 0.5}, {0.1, 0.2, 0.3}, {0, 1e-30, 1e30}}}},
 	}
+	// a large mesh (more than 2^16 triangles, a 3.5 MB file): length 0..large
+	{
+		big := make([]tri, 70001)
+		for i := range big {
+			x, y := float64(i%300), float64(i/300)
+			big[i] = tri{{x, y, 0}, {x + 1, y, 0.5}, {x, y + 1, float64(i%7) / 8}}
+		}
+		cases = append(cases, regressCase{Name: "70001-triangles", List: big, Pattern: []int{5, 0, 256, 3, 1000}})
+	}
+	// an ASCII file with two solids (multi-body export): it lists four triangles
+	{
+		facet := func(z float64) string {
+			return fmt.Sprintf(" facet normal 0 0 1\n  outer loop\n   vertex 0 0 %g\n   vertex 1 0 %g\n   vertex 0 1 %g\n  endloop\n endfacet\n", z, z, z)
+		}
+		cases = append(cases, regressCase{Name: "ascii-two-solids",
+			Ascii: "solid a\n" + facet(0) + facet(1) + "endsolid a\nsolid b\n" + facet(2) + facet(3) + "endsolid b\n",
+			Want:  []tri{{{0, 0, 0}, {1, 0, 0}, {0, 1, 0}}, {{0, 0, 1}, {1, 0, 1}, {0, 1, 1}}, {{0, 0, 2}, {1, 0, 2}, {0, 1, 2}}, {{0, 0, 3}, {1, 0, 3}, {0, 1, 3}}}})
+	}
 	var rc regressCase
 	if ev.LoadReplay("TestRegress", &rc) {
 		cases = []regressCase{rc}
